@@ -11,7 +11,7 @@ KANI_VERSION = "kani-0.68.0/cbmc-6.11.0/runner-2"
 BASE_ARGS = ["cargo", "kani", "-Z", "function-contracts", "-Z", "stubbing"]
 
 CHECK_RE = re.compile(
-    r"Check \d+: (?P<id>\S+)\s*\n\s*- Status: (?P<status>\w+)\s*\n\s*- Description: \"+(?P<desc>[^\n]*?)\"+[ \t]*(?:\n\s*- Location: (?P<loc>[^\n]*))?")
+    r"Check \d+: (?P<id>[^\n]+?)\s*\n\s*- Status: (?P<status>\w+)\s*\n\s*- Description: \"+(?P<desc>[^\n]*?)\"+[ \t]*(?:\n\s*- Location: (?P<loc>[^\n]*))?")
 
 
 def crate_dir(snap, crate):
